@@ -333,6 +333,11 @@ class Lexer:
                     "Unclosed tag: <%%%s>" % self.tag[-1].keyword,
                     **self.exception_kwargs,
                 )
+            if match.end() == match.start():
+                # an empty body: match_reg() has stepped over the "<" of
+                # the closing tag so as to make progress, which the closing
+                # tag matched next makes anyway
+                self.match_position = match.end()
             self.append_node(parsetree.Text, match.group(1))
             return self.match_tag_end()
         return True
